@@ -5,7 +5,7 @@ seeded/RESULTS.md: which check / sub-property catches which change."""
 import json, os, re, subprocess, sys, tempfile, shutil, glob
 HERE = os.path.dirname(os.path.dirname(os.path.abspath(__file__)))
 want = [a.upper() for a in sys.argv[1:]]
-resf = os.path.join(HERE, 'seeded', 'RESULTS.json')
+resf = os.path.join(HERE, 'seeded', os.environ.get('SEED_RESULTS', 'RESULTS.json'))
 results = json.load(open(resf)) if os.path.exists(resf) else {}
 head = subprocess.run(['git', '-C', '/repo', 'rev-parse', '--short', 'HEAD'], capture_output=True, text=True).stdout.strip()
 for d in sorted(glob.glob(os.path.join(HERE, 'seeded', 'C*-m*'))):
@@ -25,7 +25,7 @@ for d in sorted(glob.glob(os.path.join(HERE, 'seeded', 'C*-m*'))):
         if ap.returncode:
             ap = subprocess.run('patch -p1 --fuzz=3 < %s/patch.diff' % d, shell=True, cwd=wt, capture_output=True)
         if ap.returncode:
-            results[name] = {'applies': False, 'repo_head': head}
+            results[name] = {'applies': False, 'repo_head': head, '_run': os.getpid()}
             continue
         env = dict(os.environ, VERIF_REPO=wt, VERIF_REPLAY_DIR=tmp + '/replays', VERIF_SHRINK_BUDGET='0')
         p = subprocess.run([os.path.join(HERE, 'check'), pid, '--no-evidence'], capture_output=True, text=True, env=env, cwd=HERE)
@@ -33,11 +33,17 @@ for d in sorted(glob.glob(os.path.join(HERE, 'seeded', 'C*-m*'))):
         first = re.search(r'^violation in .*$', p.stdout, re.M)
         meta = json.load(open(d + '/meta.json'))
         results[name] = {'applies': True, 'rc': p.returncode, 'caught': p.returncode == 1, 'subs': subs,
-                         'first': first.group(0)[:220] if first else '', 'summary': meta.get('summary', '')[:200], 'repo_head': head}
+                         'first': first.group(0)[:220] if first else '', 'summary': meta.get('summary', '')[:200], 'repo_head': head, '_run': os.getpid()}
         print(name, 'CAUGHT' if p.returncode == 1 else 'MISSED rc=%d' % p.returncode, subs, flush=True)
     finally:
         subprocess.run(['git', '-C', '/repo', 'worktree', 'remove', '--force', wt], capture_output=True)
         shutil.rmtree(tmp, ignore_errors=True)
+# merge on write: another instance (other SEED_FILTER) may have finished meanwhile
+mine = {k: v for k, v in results.items() if v.get('_run') == os.getpid()}
+results = json.load(open(resf)) if os.path.exists(resf) else {}
+for k, v in mine.items():
+    v.pop('_run', None)
+    results[k] = v
 json.dump(results, open(resf, 'w'), indent=1, sort_keys=True)
 with open(os.path.join(HERE, 'seeded', 'RESULTS.md'), 'w') as f:
     f.write('| seeded change | what it changes | caught by quick tier | sub-properties that flag it |\n|---|---|---|---|\n')
